@@ -747,104 +747,171 @@ def ccon_geom(phi, off_o, off_n):
 
 
 def stream_select(ctx, cases, fnd, full):
-    """Species.find_lowest_energy_conformer: prune(remove_no_energy=True) with the default thresholds,
-    prune_diff_graph unless allowed, lowest energy.  Conformer generation/optimisation are stubbed."""
+    """Species.find_lowest_energy_conformer over {hmethod None / single points / re-optimisation} x
+    {Config.hmethod_sp_conformers} x {allow_connectivity_changes}.  Conformer generation and the two parallel drivers
+    Conformers.optimise / Conformers.single_point are replaced by deterministic stand-ins driven by a per-method table
+    (tag -> geometry, energy), so that geometries - and with them bond graphs - can change at EITHER stage; everything
+    else (prune with the default thresholds, prune_diff_graph, _set_lowest_energy_conformer, their ORDER) is the real code.
+    Oracle: the selected conformer has the parent's graph (fresh perception of its FINAL geometry) unless changes are
+    allowed, and is the minimum of the final energies over the finally retained set."""
     rng = ctx.rng
+    from types import SimpleNamespace
     from autode.species.molecule import Molecule
     from autode.atoms import Atom
+    from autode.config import Config
     from autode.conformers import Conformers
     from autode.mol_graphs import make_graph, is_isomorphic
     from autode.exceptions import NoConformers
     labels = ("C", "C", "O", "N")
     e_tol, n_sigma, tolv = default_e_tol(), inspect.signature(Conformers.prune).parameters["n_sigma"].default, rmsd_tol_value(None)
+    grid = [-3, -2, -1, 0, 0, 1, 2, 5, 400]
 
-    class _M:
-        name = "stub"
+    def method(name, table):
+        return SimpleNamespace(name=name, table=table, keywords=SimpleNamespace(low_sp="sp", low_opt="opt", opt="opt", sp="sp"))
+
+    def set_energy(c, e):
+        c.energies.clear()
+        if e is not None:
+            c.energy = float(e)
+
+    def fake_optimise(self, method, keywords=None):
+        for c in self:
+            geom, e = method.table[c._vtag]
+            c.coordinates = np.array(geom, dtype=float)
+            set_energy(c, e)
+
+    def fake_single_point(self, method, keywords=None):
+        for c in self:
+            set_energy(c, method.table[c._vtag][1])
 
     iso_cache = {}
-    saved_opt = Conformers.optimise
-    Conformers.optimise = lambda self, *a, **k: None
+    parent_geom = ccon_geom(0.0, False, False)
+
+    def iso_bit(mol, flags):
+        """oracle: fresh perception of a geometry with these detach flags (connectivity does not depend on phi)"""
+        if flags not in iso_cache:
+            c = build_confs([None], [ccon_geom(0.3, *flags)], labels)[0]
+            make_graph(c)
+            iso_cache[flags] = bool(is_isomorphic(c.graph, mol.graph, ignore_active_bonds=True))
+        return iso_cache[flags]
+
+    saved = (Conformers.optimise, Conformers.single_point, Config.hmethod_sp_conformers)
+    Conformers.optimise, Conformers.single_point = fake_optimise, fake_single_point
     cwd = os.getcwd()
     os.chdir(ctx.work)
     skipped = 0
     try:
-        for _ in range(300 if full else 45):
+        def draw():
             n = rng.randint(1, 10 if full else 6)
+            stage = rng.choice([None, None, "sp", "opt", "opt", "opt"])          # hmethod None / given
+            cfg_sp = (stage == "sp") if stage else (rng.random() < 0.5)             # Config.hmethod_sp_conformers
+            allow = rng.random() < 0.35
             phis = [rng.choice([0, 0, 30, 60, 90, 120, 180]) * math.pi / 180 + rng.choice([0, 0, 0.05, 0.3]) for _ in range(n)]
-            offs = [(rng.random() < 0.2, rng.random() < 0.1) for _ in range(n)]
-            geoms = [ccon_geom(p, oo, on) for p, (oo, on) in zip(phis, offs)]
-            ens = [None if rng.random() < 0.2 else rng.choice([-3, -2, -1, 0, 0, 1, 2, 5, 400]) / 1024 for _ in range(n)]
-            allow = rng.random() < 0.4
-            mol = Molecule(name="m", atoms=[Atom(l, x=p[0], y=p[1], z=p[2]) for l, p in zip(labels, ccon_geom(0.0, False, False))])
-            isos = []
-            for g, flags in zip(geoms, offs):      # connectivity depends on the detach flags only (cached oracle)
-                if flags not in iso_cache:
-                    c = build_confs([None], [g], labels)[0]
-                    make_graph(c)
-                    iso_cache[flags] = bool(is_isomorphic(c.graph, mol.graph, ignore_active_bonds=True))
-                isos.append(iso_cache[flags])
-            set_name_mode(rng.choice(NAME_MODES))
-            precached = rng.random() < 0.5
-            if precached:
-                # graphs perceived on intact geometries first, then the conformers take their final coordinates
-                # (a geometry change resets a species' energies since fix 2fc12a5, so energies are set afterwards)
-                prepared = build_confs([None] * n, [ccon_geom(p, False, False) for p in phis], labels)
-                for c, g, e in zip(prepared, geoms, ens):
-                    assert c.graph is not None
-                    c.coordinates = np.array(g, dtype=float)
-                    if e is not None:
-                        c.energy = float(e)
+            offs1 = [(rng.random() < 0.15, rng.random() < 0.08) for _ in range(n)]
+            ens1 = [None if rng.random() < 0.15 else rng.choice(grid) / 1024 for _ in range(n)]
+            if stage == "opt":      # re-optimisation: bonds may break or re-form, energies are re-ranked
+                phis2 = [p + rng.choice([0, 0, 0.05]) for p in phis]
+                offs2 = [((rng.random() < 0.4, rng.random() < 0.15) if rng.random() < 0.6 else f) for f in offs1]
+                ens2 = [None if rng.random() < 0.1 else rng.choice(grid) / 1024 for _ in range(n)]
+            elif stage == "sp":     # single points on the low-level geometries
+                phis2, offs2 = phis, offs1
+                ens2 = [None if rng.random() < 0.1 else rng.choice(grid) / 1024 for _ in range(n)]
             else:
-                prepared = build_confs(ens, geoms, labels)
-            D = rmsd_matrix(prepared)
-            if not energy_margin_ok(ens, n_sigma) or not rmsd_margin_ok(D, tolv):
+                phis2, offs2, ens2 = phis, offs1, ens1
+            return n, stage, cfg_sp, allow, phis, offs1, ens1, phis2, offs2, ens2
+
+        ok, brk = (False, False), (True, False)
+        ph = [0.0, math.pi / 2]
+        directed = [
+            # intact after the low level, one conformer breaks a bond in the high-level re-optimisation and ends up lowest
+            (2, "opt", False, False, ph, [ok, ok], [-2 / 1024, 1 / 1024], ph, [ok, brk], [-2 / 1024, -3 / 1024]),
+            (2, "opt", False, True, ph, [ok, ok], [-2 / 1024, 1 / 1024], ph, [ok, brk], [-2 / 1024, -3 / 1024]),
+            # broken at the low level, repaired by the high-level re-optimisation: must be kept and may be selected
+            (2, "opt", False, False, ph, [ok, brk], [-2 / 1024, 1 / 1024], ph, [ok, ok], [-2 / 1024, -3 / 1024]),
+            # single points never change a graph; a conformer broken at the low level stays excluded
+            (2, "sp", True, False, ph, [ok, brk], [-2 / 1024, 1 / 1024], ph, [ok, brk], [-2 / 1024, -3 / 1024]),
+            # no high-level method
+            (2, None, False, False, ph, [ok, brk], [-2 / 1024, -3 / 1024], ph, [ok, brk], [-2 / 1024, -3 / 1024]),
+            # every conformer breaks at the high level: nothing suitable is left
+            (2, "opt", False, False, ph, [ok, ok], [-2 / 1024, 1 / 1024], ph, [brk, brk], [-2 / 1024, -3 / 1024]),
+        ]
+        for k in range(len(directed) + (500 if full else 110)):
+            n, stage, cfg_sp, allow, phis, offs1, ens1, phis2, offs2, ens2 = directed[k] if k < len(directed) else draw()
+            geoms1 = [ccon_geom(p, *f) for p, f in zip(phis, offs1)]
+            geoms2 = [ccon_geom(p, *f) for p, f in zip(phis2, offs2)]
+            set_name_mode(rng.choice(NAME_MODES))
+            D = rmsd_matrix(build_confs([None] * n, geoms1, labels))            # prune sees the low-level geometries
+            if not energy_margin_ok(ens1, n_sigma) or not rmsd_margin_ok(D, tolv):
                 skipped += 1
                 continue
-            mol._generate_conformers = lambda prepared=prepared, mol=mol: setattr(mol, "conformers", prepared)
+            mol = Molecule(name="m", atoms=[Atom(l, x=p[0], y=p[1], z=p[2]) for l, p in zip(labels, parent_geom)])
+            isos = [iso_bit(mol, f) for f in offs2]                              # final geometries
+            precached = rng.random() < 0.5
+
+            def generate(mol=mol, n=n, precached=precached):
+                cs = build_confs([None] * n, [parent_geom] * n, labels)
+                if precached:
+                    for c in cs:
+                        assert c.graph is not None
+                mol.conformers = cs
+            mol._generate_conformers = generate
+            lm = method("low", {i: (geoms1[i], ens1[i]) for i in range(n)})
+            hm = None if stage is None else method("high", {i: (geoms2[i], ens2[i]) for i in range(n)})
+            base = {"kind": "select", "hmethod": stage, "hmethod_sp_conformers": cfg_sp, "allow": allow, "low_energies": ens1,
+                    "final_energies": ens2, "phis": phis, "low_detached": offs1, "final_detached": offs2,
+                    "final_isomorphic": isos, "names": NAME_MODE, "graphs_cached_at_generation": precached}
+            Config.hmethod_sp_conformers = cfg_sp
             try:
-                mol.find_lowest_energy_conformer(lmethod=_M(), allow_connectivity_changes=allow)
+                mol.find_lowest_energy_conformer(lmethod=lm, hmethod=hm, allow_connectivity_changes=allow)
                 retained = [c._vtag for c in mol.conformers]
                 low = mol.conformers.lowest_energy
                 sel, exp_sel = low._vtag, f"(ESel {coq_nat(low._vtag)})"
                 # the species now carries the selected conformer's energy and coordinates
                 if float(mol.energy) != float(low.energy) or not np.allclose(np.asarray(mol.coordinates), np.asarray(low.coordinates), atol=1e-12):
                     fnd.add("Species.find_lowest_energy_conformer|species-not-set-to-selected", n,
-                            "after find_lowest_energy_conformer the species' energy/coordinates are not those of conformers.lowest_energy",
-                            {"kind": "select", "energies": ens, "phis": phis, "offs": offs, "allow": allow})
+                            "after find_lowest_energy_conformer the species' energy/coordinates are not those of conformers.lowest_energy", base)
                 exp = coq_expect(retained)
             except NoConformers:
                 # from remove_no_energy, or from @requires_conformers when nothing is left to select from
                 retained, sel, exp_sel, exp = [c._vtag for c in mol.conformers], "raised-NoConformers", "ERaised", "ENoConf"
                 if retained:
                     fnd.add("Species.find_lowest_energy_conformer|NoConformers-with-conformers", n,
-                            f"NoConformers raised although conformers {retained} remain",
-                            {"kind": "select", "energies": ens, "phis": phis, "offs": offs, "allow": allow})
+                            f"NoConformers raised although conformers {retained} remain", base)
             except RuntimeError:
                 retained, sel, exp_sel = [c._vtag for c in mol.conformers], "no-suitable", "ENoSuitable"
                 exp = coq_expect(retained)
             except Exception as e:  # noqa
                 fnd.add(f"Species.find_lowest_energy_conformer|raises-{type(e).__name__}", n,
-                        f"find_lowest_energy_conformer raised {type(e).__name__}: {e}",
-                        {"kind": "select", "energies": ens, "phis": phis, "offs": offs, "allow": allow})
+                        f"find_lowest_energy_conformer raised {type(e).__name__}: {e}", base)
                 retained, sel, exp_sel, exp = "crash:" + type(e).__name__, "crash", "ENoSuitable", "ECrash"
-            rep = {"kind": "select", "energies": ens, "phis": phis, "offs": offs, "allow": allow, "isomorphic": isos,
-                   "retained": retained, "selected": sel, "names": NAME_MODE, "graphs_cached_before_final_geometry": precached}
+            finally:
+                Config.hmethod_sp_conformers = saved[2]
+            rep = dict(base, retained=retained, selected=sel)
+            what = (f"find_lowest_energy_conformer(hmethod={'None' if stage is None else 'given'}, hmethod_sp_conformers={cfg_sp}, "
+                    f"allow_connectivity_changes={allow}) with low-level energies {ens1} (detached {offs1}) and final energies "
+                    f"{ens2} (detached {offs2}): retained {retained}, selected {sel}")
             if isinstance(sel, int):
-                have = [ens[i] for i in retained if ens[i] is not None]
-                if ens[sel] is None or ens[sel] != min(have):
+                have = [ens2[i] for i in retained if ens2[i] is not None]
+                if ens2[sel] is None or ens2[sel] != min(have):
                     fnd.add("Species.find_lowest_energy_conformer|selected-not-minimum-of-retained", n,
-                            f"selected conformer {sel} (E={ens[sel]}) is not the minimum {min(have)} of the retained {retained}", rep)
+                            f"{what}; the selected conformer (E={ens2[sel]}) is not the minimum {min(have)} of the retained", rep)
+                if not allow and not isos[sel]:
+                    fnd.add("Species.find_lowest_energy_conformer|selected-has-different-graph", n,
+                            f"{what}; the FINAL geometry of the selected conformer has a bond graph that differs from the parent's "
+                            f"although connectivity changes are not allowed (final isomorphic bits {isos})", rep)
                 if not allow and not all(isos[i] for i in retained):
                     fnd.add("Species.find_lowest_energy_conformer|different-graph-retained", n,
-                            f"allow_connectivity_changes=False but retained {retained} contains a conformer whose graph differs "
-                            f"from the parent (isomorphic bits {isos})", rep)
+                            f"{what}; retained contains a conformer whose final bond graph differs from the parent's "
+                            f"(final isomorphic bits {isos})", rep)
             ctx.hist("select", f"outcome={sel if isinstance(sel, str) else 'selected'}")
-            ctx.hist("select", f"allow={allow}")
-            cases.add("select", f"check_select {coq_ens(ens)} {coq_list([coq_bool(b) for b in isos])} {qc_mat(D)} {qc(e_tol)} "
-                      f"{qc(n_sigma)} {qc(tolv)} {coq_bool(allow)} {exp_sel} {exp}", rep,
-                      (tuple(ens), tuple(phis), tuple(offs), allow), nontrivial=(retained != list(range(n))))
+            ctx.hist("select", f"hmethod={stage} cfg_sp={cfg_sp} allow={allow}")
+            ctx.hist("select", "graph-changes-at-high-level=" + str(stage == "opt" and any(iso_bit(mol, a) != iso_bit(mol, b) for a, b in zip(offs1, offs2))))
+            cases.add("select", f"check_select {coq_ens(ens1)} {coq_ens(ens2)} {coq_list([coq_bool(b) for b in isos])} {qc_mat(D)} "
+                      f"{qc(e_tol)} {qc(n_sigma)} {qc(tolv)} {coq_bool(allow)} {exp_sel} {exp}", rep,
+                      (tuple(ens1), tuple(ens2), tuple(phis), tuple(offs1), tuple(offs2), stage, cfg_sp, allow),
+                      nontrivial=(retained != list(range(n))))
     finally:
-        Conformers.optimise = saved_opt
+        Conformers.optimise, Conformers.single_point, Config.hmethod_sp_conformers = saved
         os.chdir(cwd)
     ctx.cov["streams"].setdefault("select", {"evaluations": 0, "distinct_nontrivial": 0})["margin_skipped"] = skipped
 
